@@ -41,8 +41,8 @@ CHECKS = {
             "2^32-1; together with C01 (stated for any start position). Tie/oracle: histories landing just below/at/above each boundary via non-zero "
             "start positions and summed durations, real writer -> real reader + independent parser + form rules, debug and release.",
             "Coq proof over unbounded integers + boundary histories on the real muxer",
-            "The run does not physically write more than 4 GiB of media data; that transition is covered by the theorem and by the model correspondence "
-            "on the size-independent code path. " + TB),
+            "Media data above 4 GiB is written for real through a sparse stream and judged by the oracle only (the extracted model cannot hold 4 GiB byte lists); "
+            "the model side of that transition is the theorem. " + TB),
     "C14": ("proof",
             "Kernel-checked (configuration_survives, durations_survive): accepted configurations reach the final track records unchanged in order with ids "
             "1..n, ftyp bytes and movie timescale from the configuration, durations exact / within one tick. Tie/oracle: every reader accessor on the real "
@@ -129,6 +129,31 @@ CHECKS.update({
             "random call schedules vs fresh readers, the same bytes opened in separate processes, the same history muxed three times.",
             "Coq purity proofs + schedule exploration on the real reader",
             "Labelled partial: determinism of the real objects is exploration-level evidence. " + TB),
+})
+
+CHECKS.update({
+    "C07": ("proof",
+            "Kernel-checked (Props/C07.v, C07_statement): for every byte string (true length < 2^62) and fuel > length, both build modes, read_header and read_fragment_header never "
+            "run out of fuel (no input makes the reader loop without consuming input) and their stream calls + bytes moved + CPU steps are bounded by A*n + B with explicit numerals; "
+            "read_sample makes at most 2 stream calls and moves at most min(n, sample size) bytes. Metered Hoare logic over the model's interpreter; one termination-and-cost rule for "
+            "the container loop; every decoder has a cost contract. Tie: the model's meters EQUAL the counting stream wrapper's counters on every input that opens. Oracle: linear budget "
+            "with small constants (16n+10000 calls, 32n+100000 bytes) and a watchdog on scaled adversarial families.",
+            "Coq metered-cost proofs + meter/counter equality + budgeted exploration",
+            "The theorem's constants are crude (A ~ 7e16: constant bounds for the u8/u16-counted codec records enter at every nesting level); the run-time budget is far tighter. CPU cost "
+            "of the pure lookups (no stream calls) is not metered in the model: covered by per-call wall time in the oracle. " + TB),
+    "C08": ("proof",
+            "Kernel-checked (Props/C08.v, C08_statement): for every byte string the largest single allocation request and the total requested while opening are bounded by A'*n + B' "
+            "(every count field is checked against the enclosing box size before Vec::with_capacity; box sizes are bounded by the parent, ultimately by the file length); read_sample "
+            "allocates at most 2*size+32 <= 2n+32. Tie: model allocation events vs the counting global allocator (upper bound). Oracle: largest request <= 16n+65536, peak <= 64n+262144.",
+            "Coq allocation-bound proofs over Alloc events + counting allocator",
+            "u8/u16-counted vectors (avcC, hvcC: up to 2 MiB) are constants inside B'. Vec growth and HashMap internals are allocator detail (upper bound, not equality). " + TB),
+    "C18": ("proof",
+            "Kernel-checked (Props/C18.v): metadata_sound — decoding the independent reference rendering (Iso/IsoMeta.v) of any tag set (any subset of title/year/poster/summary, "
+            "year as decimal text or 4-byte binary, any item order, unknown items interleaved, meta with or without the version/flags word, hdlr before or after ilst, any handler) "
+            "with the model decoder at any position returns exactly the tags (all None for a handler other than mdir); metadata_file_sound lifts it to open(); absence theorems. "
+            "Oracle: the four accessors on reference-rendered files vs the abstract tag set; edge forms (signed/padded/overflowing year text, odd binary lengths, duplicates) by correspondence.",
+            "Coq proof against an independent renderer + tag oracle on the real reader",
+            "Known finding D93 (data types outside {0,1,13,21}, e.g. PNG covers). A version-less meta box is only recognised when hdlr comes first (QuickTime layout). " + TB),
 })
 
 PENDING = {"C07": "check runs (counters vs linear budget, model meters = implementation counters) but its Coq cost theorems are still being proved; not claimed yet",
